@@ -43,7 +43,15 @@ func (g *Gen) instr(st *BState, b *ssa.BasicBlock, in ssa.Instruction) {
 		}
 		if obj := in.Object(); obj != nil {
 			if _, isVar := obj.(*types.Var); isVar {
-				g.debugNames[b][obj.Name()] = in.X
+				x := in.X
+				if _, isConst := x.(*ssa.Const); isConst {
+					// `v := T{...}`: go/ssa records the zero value at the definition and the real value only at
+					// later uses; a variable with one defining value is that value wherever it is in scope
+					if sv := g.singleDef(obj); sv != nil {
+						x = sv
+					}
+				}
+				g.debugNames[b][obj.Name()] = x
 			}
 		}
 	case *ssa.Phi:
@@ -937,4 +945,33 @@ func (g *Gen) doNext(st *BState, in *ssa.Next) {
 	g.assume(st, "(and "+strings.Join(facts, " ")+")")
 	g.heapSet(st.heap, it, fmt.Sprintf("(ite %s (store %s %s true) %s)", okN, vis, kN, vis))
 	g.tuples[in] = []string{okN, kN, vN}
+}
+
+// singleDef: the only non-constant SSA value the function's debug information ever associates with a
+// variable (nil if there are several, i.e. the variable is reassigned).
+func (g *Gen) singleDef(obj types.Object) ssa.Value {
+	if g.singleDefs == nil {
+		g.singleDefs = map[types.Object]ssa.Value{}
+		multi := map[types.Object]bool{}
+		for _, b := range g.fn.Blocks {
+			for _, in := range b.Instrs {
+				d, ok := in.(*ssa.DebugRef)
+				if !ok || d.IsAddr || d.Object() == nil {
+					continue
+				}
+				if _, c := d.X.(*ssa.Const); c {
+					continue
+				}
+				o := d.Object()
+				if prev, ok := g.singleDefs[o]; ok && prev != d.X {
+					multi[o] = true
+				}
+				g.singleDefs[o] = d.X
+			}
+		}
+		for o := range multi {
+			delete(g.singleDefs, o)
+		}
+	}
+	return g.singleDefs[obj]
 }
